@@ -141,6 +141,23 @@ Theorem C13_abort_in_session : forall dev d cur f eager priv lvl ls k l,
 Proof. exact abort_in_session. Qed.
 Print Assumptions C13_abort_in_session.
 
+(* ---- a level that is no configuration session (the user's own privilege_levels: a shell ...) under a guarded abort
+   shape: a failed run = [navigation] ++ lines 0..k and NOTHING else, the believed level stays ---- *)
+Theorem C13_failed_run_outside_session : forall dev d cur f eager priv lvl ls k l,
+  let f' := net_fwc (d_markers d) f in
+  a_guard (d_abort d) = true -> is_session d lvl = false ->
+  keeps_session (d_abort d) = true -> has_level d lvl = true ->
+  resolve_level d priv = Ok lvl ->
+  nth_error ls k = Some l ->
+  (forall j l', (j < k)%nat -> nth_error ls j = Some l' -> spec_fails dev f' eager (length ls) j l' = false) ->
+  spec_fails dev f' eager (length ls) k l = true ->
+  send_configs dev v_now d cur f true eager priv ls =
+    (nav cur lvl ++ lines_events (firstn (S k) ls),
+     Ok (spec_resps dev f' eager (length ls) 0 (firstn (S k) ls)),
+     lvl).
+Proof. exact failed_run_outside_session. Qed.
+Print Assumptions C13_failed_run_outside_session.
+
 (* ---- send_config = send_configs of its lines ---- *)
 Theorem C13_send_config_eq_send_configs_splitlines : forall dev v d cur f stop eager priv cfg,
   let '(es, o, cur') := send_configs dev v d cur f stop eager priv (usplitlines cfg) in
@@ -269,6 +286,22 @@ Theorem C13_generated_abort_shapes :
   = (true, false, true, false).
 Proof. repeat split; vm_compute; reflexivity. Qed.
 Print Assumptions C13_generated_abort_shapes.
+
+(* the regenerated NX-OS / EOS drivers (both twins) given an extra level of the user's that is no session: the premises of
+   C13_failed_run_outside_session hold for it (guarded shape that stays in the level; the level exists and is no session)
+   while the registered session still is one; the regenerated IOS-XR / Junos shapes are NOT guarded: they type their abort
+   lines at any level, the user's included (known findings C13-iosxr/junos-abort-at-user-level) *)
+Theorem C13_generated_user_levels :
+  forallb (fun d => let d' := with_levels d [(bs "bash", false)] in
+                    a_guard (d_abort d') && negb (is_session d' (bs "bash")) && keeps_session (d_abort d') &&
+                    has_level d' (bs "bash") && is_session d' gen_session_name &&
+                    match abort_lines d' (bs "bash") with [] => true | _ => false end)
+    [gen_drv_cisco_nxos_sync; gen_drv_cisco_nxos_async; gen_drv_arista_eos_sync; gen_drv_arista_eos_async] = true /\
+  forallb (fun d => let d' := with_levels d [(bs "bash", false)] in
+                    negb (a_guard (d_abort d')) && negb (match abort_lines d' (bs "bash") with [] => true | _ => false end))
+    [gen_drv_cisco_iosxr_sync; gen_drv_cisco_iosxr_async; gen_drv_juniper_junos_sync; gen_drv_juniper_junos_async] = true.
+Proof. split; vm_compute; reflexivity. Qed.
+Print Assumptions C13_generated_user_levels.
 
 (* the default level of send_configs exists on every platform; default markers are non-trivial on the
    five core platforms and free of newlines (so the merged response's known finding needs a per-call marker) *)
